@@ -255,6 +255,10 @@ pub enum Mutation {
     ToNoneAll,
     /// Vec<Option<_>>: the first None becomes Some (copy of the first Some, else default)
     ToSomeAny,
+    /// Vec<Option<_>>: the LAST None becomes Some (copy of the first Some with booleans set, else default)
+    ToSomeLast,
+    /// Vec<Option<bool>>: the first None becomes Some(val)
+    ToSomeBool { val: u8 },
     /// Vec<Option<u128>>: xor bit `bit` into the first Some value
     XorFirstSome { bit: u32 },
     /// replace the node by the same-position node of the message of phase
@@ -518,6 +522,37 @@ pub fn apply_tree(
                 }
                 _ => return None,
             }
+        }
+        Mutation::ToSomeLast => {
+            let inner = match sch {
+                Sch::Seq(i) => match &**i {
+                    Sch::Opt(x) => (**x).clone(),
+                    _ => return None,
+                },
+                _ => return None,
+            };
+            let V::Seq(items) = &mut v else { return None };
+            let i = items.iter().rposition(|x| matches!(x, V::Opt(None)))?;
+            let mut nv = match items.iter().find(|x| matches!(x, V::Opt(Some(_)))).cloned() {
+                Some(V::Opt(Some(x))) => *x,
+                _ => default_of(&inner),
+            };
+            // a set bit, so that the value is consumed as "1"
+            match &mut nv {
+                V::Bool(b) => *b = 1,
+                V::Tup(fs) => {
+                    if let Some(V::Bool(b)) = fs.first_mut() {
+                        *b = 1
+                    }
+                }
+                _ => {}
+            }
+            items[i] = V::Opt(Some(Box::new(nv)));
+        }
+        Mutation::ToSomeBool { val } => {
+            let V::Seq(items) = &mut v else { return None };
+            let i = items.iter().position(|x| matches!(x, V::Opt(None)))?;
+            items[i] = V::Opt(Some(Box::new(V::Bool(*val))));
         }
         Mutation::ToNoneAny | Mutation::ToNoneAll | Mutation::ToSomeAny | Mutation::XorFirstSome { .. } => {
             let inner = match sch {
